@@ -4,6 +4,7 @@ import (
 	"context"
 	"encoding/json"
 	"fmt"
+	"math"
 	"os"
 	"regexp"
 	"sort"
@@ -325,12 +326,12 @@ func refList(c Case) []Item {
 }
 
 type page struct {
-	Keys        []string
-	Cursors     []string
-	Total       int64
-	HasNext     bool
-	HasPrev     bool
-	Start, End  string
+	Keys       []string
+	Cursors    []string
+	Total      int64
+	HasNext    bool
+	HasPrev    bool
+	Start, End string
 }
 
 func keyOf(c Case, it Item) string {
@@ -640,7 +641,8 @@ func genCase(t *rapid.T) Case {
 	ids := rapid.Permutation(seq(40)).Draw(t, "ids")
 	for i := 0; i < n; i++ {
 		c.Items = append(c.Items, Item{Id: int64(ids[i]), Name: rapid.SampledFrom(words).Draw(t, "name"), Desc: rapid.SampledFrom(words).Draw(t, "desc"),
-			Rank: int64(rapid.IntRange(-2, 3).Draw(t, "rank")), Score: float64(rapid.IntRange(-2, 3).Draw(t, "score")) / 2, U: uint8(rapid.IntRange(0, 3).Draw(t, "u")),
+			Rank:  rapid.SampledFrom([]int64{-2, -1, 0, 1, 2, 3, 0, 1, math.MinInt64, math.MaxInt64, math.MinInt64 + 1, 1 << 62}).Draw(t, "rank"),
+			Score: rapid.SampledFrom([]float64{-1, -0.5, 0, 0.5, 1, 1.5, 0, 1, -1.7e308, 1.7e308, 5e-324}).Draw(t, "score"), U: rapid.SampledFrom([]uint8{0, 1, 2, 3, 1, 255}).Draw(t, "u"),
 			Label: rapid.SampledFrom([]string{"a", "A", "b", "B", "ab", "", "Z"}).Draw(t, "label")})
 	}
 	if rapid.IntRange(0, 2).Draw(t, "hasfilter") == 0 {
